@@ -154,25 +154,31 @@ chk("C06",
 chk("C07",
     "Props/C07.lean: in all nine models Search is a function of (index, token) returning only a result, so any history of searches - any order, "
     "any repetition - answers each token as the single search does and leaves the index unchanged (history_independent, instantiated for the nine "
-    "schemes). Purity is true by construction in a functional model; that the CODE is pure is established on every run by the correspondence and "
-    "by the direct oracle on the real objects: deep copies of database / configuration dict / serialized key before and after EDBSetup, the "
+    "schemes). Purity is true by construction in a functional model; that the CODE is pure is established on every run (a) by a TRANSLATOR: "
+    "harness/translate/mutation_sites.py regenerates Generated/MutationSites.lean from the working tree - every mutating statement of the scheme layer "
+    "(stores, augmented stores, del, mutating method calls, random.shuffle, calls of repository functions that change the parameter they are given) in "
+    "schemes/*/*/{construction,structures,config}.py, schemes/interface and toolkit, each with the provenance of the object it changes from a depth-aware "
+    "alias analysis - and scheme_layer_mutates_only_its_own_objects proves by kernel evaluation over that table that every statement changes an object "
+    "created inside the call or initialises the object under construction (named exceptions: the four primitive-class memo tables, the loader's lazy "
+    "imports): a dropped deep copy, an in-place helper, a per-object or module cache or a mutable default argument changes the table and the theorem "
+    "stops checking; (b) by the correspondence and the direct oracle on the real objects: deep copies of database / configuration dict / serialized key before and after EDBSetup, the "
     "serialized index compared after every search of a random history (present, absent, repeated keywords) against one index object, every "
     "answer compared with a single search on a freshly deserialized index, then a second index (fresh key, same or other database) built by the "
     "same scheme object.",
     SCHEME_TRUST,
-    "Lean 4 proof (history independence of pure search, all nine models) + recorded-oracle correspondence + before/after comparison on the real objects",
+    "Lean 4 proof (history independence of pure search, all nine models; no statement of the scheme layer mutates an object it did not create, over a table regenerated from the source by an alias-analysis translator) + recorded-oracle correspondence + before/after comparison on the real objects",
     "6/C07")
 chk("C08",
     "Props/C08.lean: for each of the nine configuration builders a configuration lacking (or marking -1) any parameter the builder reads is refused "
     "with ValueError at configuration build; any zero or negative param_* number (other than the marker -1) is refused by every builder; for PiBas "
     "every raw configuration is refused, or setup fails, or (under the no-collision hypotheses) every stored keyword's search returns exactly its "
-    "list (PiBas.mismatch_is_loud: an accepted PiBas configuration with prf_f_output_length != param_lambda makes EDBSetup raise); for SSE2 every raw configuration is refused or yields a scheme that is correct outright (SSE2.refused_or_correct: setup returns, tokens are generated, every stored keyword's search is exact - no hypothesis about the run). Tie: the models' builders against the real ones over a grid (every field deleted once; length fields over "
+    "list (PiBas.mismatch_is_loud: an accepted PiBas configuration with prf_f_output_length != param_lambda makes EDBSetup raise); the same refused / loud at setup / exact-under-the-run's-distinctness-facts statement over EVERY raw configuration for PiPack, PiPtr, Pi2Lev, CT14, ANSS16, SSE1 (no collision hypothesis on its PRPs) and DP17 (S.refused_or_correct); for SSE2 every raw configuration is refused or yields a scheme that is correct outright (SSE2.refused_or_correct: setup returns, tokens are generated, every stored keyword's search is exact - no hypothesis about the run). Tie: the models' builders against the real ones over a grid (every field deleted once; length fields over "
     "{8,16,20,24,32,48,0,-1,-2}, block/capacity fields over {-8,-2,-1,0,1,2,3,5,64}, one non-integer each; every primitive name over aliases, another "
     "primitive's name, unknown, empty): same accept/refuse decision at the same stage with the same error class and the same index/results when "
     "accepted (non-integers: refused/accepted only). Direct oracle on the real code over the same grid: an exception somewhere, or every search "
     "(stored and absent keywords) correct; missing needed parameter => refused by SSEConfig itself.",
     SCHEME_TRUST + " Non-integer values of integer fields are outside the theorems (enumerated on the real code).",
-    "Lean 4 proof (refusal theorems for all nine builders, refused-or-correct for PiBas and SSE2) + recorded-oracle correspondence over a configuration grid + direct oracle",
+    "Lean 4 proof (refusal theorems for all nine builders, refused-or-correct for all nine schemes - SSE2 outright, the others under the distinctness facts the driver evaluates on every run) + recorded-oracle correspondence over a configuration grid + direct oracle",
     "6/C08")
 chk("C09",
     "Props/C09.lean over the composed model - the client program extracted from frontend/client/** (a Service object freshly loaded from disk for "
